@@ -34,7 +34,7 @@ def impl_case(tree):
     snapshots) and every applicable rewrite, each on a copy cloned from the root."""
     rec = {"tree": tree, "find": {}, "apply": [], "purity": [], "find_meta": []}
     for rn in core.RULE_NAMES:
-        rule = core.RULES[rn]()
+        rule = core.rule_instance(rn)
         root = core.tuple_to_py(tree)
         nodes_inorder = core.inorder(root)
         before = core.snapshot(root)
@@ -81,8 +81,12 @@ def impl_case(tree):
 
 
 def impl_apply(tree, rn, i):
-    rule = core.RULES[rn]()
+    rule = core.rule_instance(rn)
     orig = core.tuple_to_py(tree)
+    try:
+        str(orig)   # states are routinely rendered before a rule is applied (agents print them)
+    except Exception:
+        pass
     orig_snap = core.snapshot(orig)
     node = core.inorder(orig)[i]
     out = {"rule": rn, "idx": i}
@@ -92,8 +96,12 @@ def impl_apply(tree, rn, i):
         tags = core.tag_map(copy_root)
         if tags[id(copy_node)] != i + 1:
             out["clone_pos"] = tags[id(copy_node)]
+        copy_snap = core.snapshot(copy_root) if rn == "bm" else None
         change = rule.apply_to(copy_node)
         res = change.result
+        if copy_snap is not None and core.snapshot(copy_root) != copy_snap:
+            # balanced move returns a NEW tree: the tree it was given must be left alone
+            out["orig_modified"] = True
         if res is None:
             out["impl"] = ("exc", "NoResult", "change.result is None")
             return out
@@ -114,6 +122,32 @@ def impl_apply(tree, rn, i):
         out["impl"] = ("exc", type(e).__name__, (str(e) or traceback.format_exc())[:200])
     if core.snapshot(orig) != orig_snap:
         out["orig_modified"] = True
+    # second step, applied DIRECTLY to the tree the first rewrite returned (no re-cloning): a rule
+    # that reports applicable on a rewritten tree must be appliable there (sampled: 1 case in 3)
+    if out.get("impl", ("",))[0] == "ok" and (hash((core.tuple_to_wire(tree), rn, i)) % 3 == 0):
+        try:
+            cands = []
+            for rn2 in core.RULE_NAMES:
+                r2 = core.rule_instance(rn2)
+                for n2 in r2.find_nodes(rroot):
+                    cands.append((rn2, n2.r_index))
+            cands.sort()
+            if cands:
+                rn2, idx2 = cands[hash((rn, i, len(cands))) % len(cands)]
+                n2 = core.inorder(rroot)[idx2]
+                try:
+                    ch2 = core.rule_instance(rn2).apply_to(n2)
+                    if ch2.result is None:
+                        out["second_step"] = {"rule": rn2, "idx": idx2, "problem": "no result"}
+                    else:
+                        probs = core.audit_links(ch2.result.get_root())
+                        if probs:
+                            out["second_step"] = {"rule": rn2, "idx": idx2, "problem": "malformed tree", "audit": probs[:3]}
+                except Exception as e:  # noqa
+                    out["second_step"] = {"rule": rn2, "idx": idx2, "problem": f"apply_to raised {type(e).__name__}: {e}"[:200],
+                                          "tree_after_first_step": out.get("text")}
+        except Exception as e:  # noqa
+            out["second_step"] = {"problem": f"find_nodes raised {type(e).__name__} on a rewritten tree"}
     return out
 
 
@@ -182,6 +216,7 @@ def compare(recs):
         "vars": [],          # variable set changed (C07)
         "orig": [],          # the tree cloned from was modified (C07/C09)
         "value": [],         # oracle: value / solution set not preserved (C01/C02)
+        "second_step": [],   # applicable on a rewritten tree but not appliable / malformed result (C06, C07)
         "clone_pos": [],     # clone_from_root returned a node at another position (C13)
         "print": [],         # result could not be printed
         "skipped": 0,        # outside the model's domain (non-finite / fractional power folding)
@@ -207,6 +242,8 @@ def compare(recs):
                 d["orig"].append(dict(base))
             if "clone_pos" in a:
                 d["clone_pos"].append(dict(base, got=a["clone_pos"]))
+            if "second_step" in a:
+                d["second_step"].append(dict(base, first_result=a.get("text"), second=a["second_step"]))
             if impl[0] == "exc":
                 d["apply_fail"].append(dict(base, impl=impl, model=model))
                 continue
